@@ -22,6 +22,7 @@ Ctl ==
   \* (PUSH_PROMISE only makes sense from the server: the harness skips it in the other direction)
   \/ \E s \in Streams, p \in Promised : ASendPush(s, p) /\ hist' = Append(hist, Rec("push", s, p, 0, FALSE, "-", 0))
   \/ \E s \in Streams : ASendPrio(s) /\ hist' = Append(hist, Rec("prio", s, 0, 0, FALSE, "-", 0))
+  \/ ASendUnknown /\ hist' = Append(hist, Rec("unknown", 0, 0, 0, FALSE, "-", 0))
   \/ \E d \in Pings : ASendPing(d) /\ hist' = Append(hist, Rec("ping", 0, d, 0, FALSE, "-", 0))
   \/ nSend >= MaxSend - 2 /\ ASendGoAway /\ hist' = Append(hist, Rec("goaway", 0, 0, 0, FALSE, "-", 0))   \* towards the end only
   \* the sender ends its side while the relay still holds frames for the receiver; after that the receiver only grants
